@@ -410,6 +410,11 @@ func genText(r *simrt.Rng) string {
 		return "kebab-case-with-more-words and.dots"
 	case 17:
 		return "ALLCAPS"
+	case 18:
+		if r.Intn(4) == 0 { // huge
+			return strings.Repeat(genLongText(r), 24)
+		}
+		return "Mixed CASE with 3 numbers 42 and 7up"
 	default:
 		var parts []string
 		for i, k := 0, 1+r.Intn(5); i < k; i++ {
